@@ -27,7 +27,7 @@ NOTES = {
     "C27-m2": "runs built as the parsers build them (Tests[label] = Files) and the aggregate's per-test entries compared with Coverage.tla's PerTest",
     "C28-m2": "multi-character names (a, ab, b, ...) and the path set PathsCollide (root directory ab next to a/b) in RemoteTree.tla",
     "C21-m4": "every case repeated on a Globber that already served a glob(['**']) with the other hidden value (Glob.tla HistoryFree)",
-    "C06-m2": "STILL MISSED: the binding (VerifCycleCheck) builds a fresh detector per graph; catching it needs a verif export that keeps one cycleDetector across Check() calls while edges are resolved in between (CycleDetector.tla has no growing-graph dimension yet) - next step",
+    "C06-m2": "a detector kept across two passes (before any dependency is resolved / on the resolved graph), verif export NewVerifCycleDetector (hook commit c448f9c)",
     "C32-m1": "scenario with optional_outs and a binary rule", "C32-m2": "fs.WriteFile crashed with a fresh destination",
 }
 
